@@ -34,6 +34,10 @@ def motion(draw, moving=None, rotating=None):
             w=draw(gen.f(0.2, 3.0)),
             ph=draw(gen.f(-3, 3)),
         )
+    if moving and not rotating and draw(st.integers(0, 3)) == 0:
+        # uniform translation whose derivatives are handed to Frame as constant arrays (r_OP_t = c1, r_OP_tt = 0), the
+        # other documented way of prescribing a motion
+        spec.update(c2=[0.0, 0.0, 0.0], a=[0.0, 0.0, 0.0], array_derivs=True)
     if rotating:
         spec.update(
             axis=draw(gen.unit_vec3()),
@@ -80,6 +84,8 @@ def make_frame(ms, name="frame"):
     from cardillo.discrete import Frame
 
     f = motion_functions(ms)
+    if ms.get("array_derivs"):
+        return Frame(r_OP=f["r"], r_OP_t=np.array(ms["c1"], dtype=float), r_OP_tt=np.zeros(3), A_IB=f["A"](0.0), name=name)
     if f["moving"] or f["rotating"]:
         return Frame(r_OP=f["r"], r_OP_t=f["r_t"], r_OP_tt=f["r_tt"], A_IB=f["A"], A_IB_t=f["A_t"],
                      A_IB_tt=f["A_tt"], name=name)
